@@ -13,6 +13,7 @@ def check(ctx: Ctx) -> None:
     singles, _ = risk_common.run_risk_models(ctx, pairs=False)
     rr = risk_common.RiskReplay(ctx, "")
     rr.replay_values(singles)
+    risk_common.spellings(ctx, singles)
     risk_common.selftest_values(ctx, singles)
     import json
     for r in singles:
